@@ -122,6 +122,11 @@ ensures
     lb = U.file('crates/oq3_syntax/src/lib.rs')
     for _fn in ('parse', 'parse_check_lex'):
         lb.guard(_fn, None, impl='SourceFile', why='SourceFile::%s is glue around parsing::parse_text(_check_lex) and validation::validate; PhantomData<fn() -> T> is outside the dialect' % _fn)
+    # oq3_source_file/src/api.rs: generic plumbing (AsRef<Path>, file system); it hands the text it was given to the parser and the
+    # diagnostics to the printer unchanged -- not verified, text pinned
+    ap = U.file('crates/oq3_source_file/src/api.rs')
+    for _fn in ('parse_source_file', 'parse_source_file_with_search', 'parse_source_string', 'inner_print_compiler_errors'):
+        ap.guard(_fn, None, why='api.rs::%s is generic plumbing around the parser / printer: the diagnostics refer to exactly the text handed in' % _fn)
     # source_file.rs: the reporting interface hands out the diagnostic's own range
     sf = U.file('crates/oq3_source_file/src/source_file.rs')
     sf.fn('range_to_span', ret='r', props=P, spec='ensures r.start == range.start.raw, r.end == range.end.raw,      //@C12:printed-span-is-the-range')
@@ -152,6 +157,7 @@ ensures
     forall|k: int| 0 <= k < lexed.err_tokens().len() ==> #[trigger] lexed.err_tokens()[k] < lexed.ntok(),
     forall|i: nat| i < lexed.ntok() ==> (#[trigger] lexed.range_of(i)).0 <= lexed.range_of(i).1 && lexed.range_of(i).1 <= lexed.blen() && lexed.blen() <= u32::MAX,
     forall|k: int| 0 <= k < errors@.len() ==> #[trigger] in_text(errors@[k], lexed.blen()),
+    forall|k: int| 0 <= k < errors@.len() ==> (#[trigger] errors@[k]).sp_range() == lexed.range_of(lexed.err_tokens()[k] as nat),
 ensures oq3_it1.rest().len() == 0,
 decreases oq3_it1.rest().len(),'''},
          spec='''requires
@@ -160,7 +166,9 @@ decreases oq3_it1.rest().len(),'''},
 ensures
     // one syntax error per lexical diagnostic, each with start <= end <= length of the text
     r@.len() == lexed.err_tokens().len(),                                                          //@C11:lexical-diagnostics-kept
-    forall|k: int| 0 <= k < r@.len() ==> #[trigger] in_text(r@[k], lexed.blen()),                  //@C12:lexical-ranges-in-text''')
+    forall|k: int| 0 <= k < r@.len() ==> #[trigger] in_text(r@[k], lexed.blen()),                  //@C12:lexical-ranges-in-text
+    // ... and it is located on its lexeme: exactly the byte range of the token it belongs to
+    forall|k: int| 0 <= k < r@.len() ==> (#[trigger] r@[k]).sp_range() == lexed.range_of(lexed.err_tokens()[k] as nat),      //@C11,C12:lexical-diagnostic-on-its-lexeme''')
     f.fn('parse_text', ret='r', props=P,  spec='''ensures
     r.0.text() == openqasm_code_text@,                                                             //@C02:tree-spells-the-input
     r.0.is_source_file(),''')
